@@ -43,6 +43,9 @@ type daemonOpts struct {
 	noFifos   bool
 	logLevel  string   // "" => error
 	extra     []string // further command-line flags
+	// preexisting: what the events file already holds when the daemon starts
+	// (the output of an earlier run: the daemon is restarted on the same file)
+	preexisting []byte
 }
 
 func startDaemon(o daemonOpts) (*daemon, error) {
@@ -60,7 +63,7 @@ func startDaemon(o daemonOpts) (*daemon, error) {
 	}
 	if d.outPath == "" {
 		d.outPath = filepath.Join(dir, "events.log")
-		if err := os.WriteFile(d.outPath, nil, 0o644); err != nil {
+		if err := os.WriteFile(d.outPath, o.preexisting, 0o644); err != nil {
 			return nil, err
 		}
 	}
@@ -544,4 +547,19 @@ func parseOutput(b []byte) *parsedOutput {
 		p.Raw = append(p.Raw, cp)
 	}
 	return p
+}
+
+// earlierRunOutput renders n UserLogin lines as an earlier run of the daemon
+// would have left them in the events file.
+func earlierRunOutput(n int) []byte {
+	var b bytes.Buffer
+	for k := 0; k < n; k++ {
+		ev := identityEvent(9100+k, 3900000+k, time.Date(2022, 11, 14, 20, 0, k, 0, time.UTC))
+		ev.Metadata.AuditID = fmt.Sprintf("earlier-run-%d", k)
+		ev.Subjects["loggedAs"] = fmt.Sprintf("earlier-run-%d", k)
+		line, _ := json.Marshal(ev)
+		b.Write(line)
+		b.WriteByte('\n')
+	}
+	return b.Bytes()
 }
